@@ -132,6 +132,32 @@ theorem C02_obligations (c : Cfg) (it : Item) (dw : DeriveWhere) (t : Trait) :
     simp [Entailed, h.1, h.2]
   · simp [Entailed]
 
+/-- `C02_obligations` for any set of facts that contains the entailed obligations. -/
+theorem C02_obligations_sub (c : Cfg) (it : Item) (dw : DeriveWhere) (t : Trait) (holds : Oblig → Bool)
+    (hsub : ∀ o, Entailed it dw t o = true → holds o = true) :
+    ∀ m ∈ (generateBody c it dw t).toList, m.body.oblBad holds = false := by
+  apply obl_generateBody
+  · intro x hx t' ht' p hp
+    have hv := Item.indexed_mem it x hx
+    have hmem : p.1 ∈ x.2.relevantIdx t' := by
+      rw [← Data.iterFields_fst]; exact List.mem_map_of_mem hp
+    have heq : x.2.relevantIdx t' = x.2.relevantIdx t := by
+      rcases ht' with rfl | ⟨rfl, rfl⟩ | ⟨rfl, rfl⟩
+      · rfl
+      · exact relevantIdx_uniform x.2 .ord .partialOrd (by simp [cmpTraits]) (by simp [cmpTraits])
+      · exact relevantIdx_uniform x.2 .partialOrd .ord (by simp [cmpTraits]) (by simp [cmpTraits])
+    rw [heq] at hmem
+    have hrel : it.fieldRelevant t x.1 p.1 = true := by simp [Item.fieldRelevant, hv, hmem]
+    apply hsub
+    rcases ht' with rfl | ⟨rfl, rfl⟩ | ⟨rfl, rfl⟩ <;> simp [Entailed, hrel]
+  · intro h; exact hsub _ (by simp [Entailed, h])
+  · intro h; exact hsub _ (by simp [Entailed, h])
+  · intro h; exact hsub _ (by simp [Entailed, h])
+  · intro h
+    simp only [Bool.and_eq_true] at h
+    exact hsub _ (by simp [Entailed, h.1, h.2])
+  · exact hsub _ (by simp [Entailed])
+
 /-- The traversal flags what it should: `Ord::cmp` on a field inside a `PartialEq` impl, a mention of a skipped field,
 `*self` without `Copy`. -/
 example : (Expr.call (.traitFn .cmp) [.var (.selfField 0 0), .var (.otherField 0 0)]).oblBad
@@ -379,5 +405,37 @@ example :
     (Expr.cast (.deref (.var .self_)) .isize).ty cx Γ = none ∧
     (Expr.structLit 0 [.mk 0 (.defaultCall 0 0)]).ty cx Γ = none := by
   decide
+
+/-- **C02 in one statement.**  For every item the validation accepts, every attribute, requested trait and
+configuration: if the facts `holds` about trait implementations contain
+* `FieldType: Trait` for every field that is *not skipped* for the derived trait ("the item's field types support the
+  requested traits under the declared bounds" — the user's side; for `Ord`/`PartialOrd` the partner trait's method may be
+  used on the same fields),
+* `Self: Copy` where `Copy` is derived in the same attribute (or the item is a union, whose `Clone` demands it),
+  `Self: Clone` where `Clone` is, `Self: Ord` where `PartialOrd` delegates to the `Ord` impl of the same attribute with
+  only custom bounds — each then holds under the very where-clause of the impl (`C02_delegation_same_bounds`) —, and
+  `Self: Zeroize` for the delegating `Drop` impl (the documented requirement of that configuration),
+then every generated method **type-checks**: it is well-typed at its signature's return type with every `match`
+exhaustive (`Method'.wellTyped`), and every trait obligation it raises is among those facts (`oblBad holds = false`).
+Together with `C02_impl_list` (exactly the requested impls) this is the model's rendering of the property. -/
+theorem C02_type_checks (c : Cfg) (raw : RawItem) (hraw : RawOK raw) (inp : Input)
+    (h : Input.fromInput c raw = .ok inp) (dw : DeriveWhere) (hdw : dw ∈ inp.deriveWheres)
+    (t : DeriveTrait) (ht : t ∈ dw.traits) (holds : Oblig → Bool)
+    (hsub : ∀ o, Entailed inp.item dw t.trait o = true → holds o = true) :
+    ∀ im ∈ generateImpl c inp dw t, ∀ m ∈ im.methods,
+      m.wellTyped inp.item = true ∧ m.body.oblBad holds = false := by
+  intro im him m hm
+  refine ⟨C02_well_typed c raw hraw inp h dw hdw t ht im him m hm, ?_⟩
+  have hob := C02_obligations_sub c inp.item dw t.trait holds hsub
+  unfold generateImpl at him
+  simp only at him
+  split at him
+  · simp only [List.mem_cons, List.not_mem_nil, or_false] at him
+    rcases him with rfl | rfl
+    · exact hob m hm
+    · simp at hm
+  · simp only [List.mem_singleton] at him
+    subst him
+    exact hob m hm
 
 end DW
